@@ -85,6 +85,14 @@ def _parse_config_path(config_path: str) -> str:
   if spec is None:
     raise ValueError('Package not found', pkg)
   file_sys_path = spec.origin
+  if file_sys_path is None:
+    # Namespace package (a directory without __init__.py): it has no origin,
+    # only a list of locations.
+    for location in spec.submodule_search_locations or []:
+      path = os.path.join(location, filename)
+      if os.path.isfile(path):
+        return path
+    raise ValueError('File not found in namespace package', pkg, filename)
   # file_sys_path often ends with __init__.py.
   path = os.path.join(os.path.dirname(file_sys_path), filename)
   return path
